@@ -199,10 +199,14 @@ impl DBM {
             }
         }
 
+        #[cfg(feature = "verif")]
+        teos_common::verif::crash_point("batch_remove_users:pre-commit");
         match tx.commit() {
             Ok(_) => log::debug!("Users successfully deleted"),
             Err(e) => log::error!("Couldn't delete users. Error: {e:?}"),
         }
+        #[cfg(feature = "verif")]
+        teos_common::verif::crash_point("batch_remove_users:post-commit");
 
         (users.len() as f64 / limit as f64).ceil() as usize
     }
@@ -445,10 +449,14 @@ impl DBM {
             };
         }
 
+        #[cfg(feature = "verif")]
+        teos_common::verif::crash_point("batch_remove_appointments:pre-commit");
         match tx.commit() {
             Ok(_) => log::debug!("Appointments successfully deleted"),
             Err(e) => log::error!("Couldn't delete appointments. Error: {e:?}"),
         }
+        #[cfg(feature = "verif")]
+        teos_common::verif::crash_point("batch_remove_appointments:post-commit");
 
         (appointments.len() as f64 / limit as f64).ceil() as usize
     }
